@@ -49,9 +49,11 @@ META = {
         "quick": "is_ppt/is_npt: dims 2x2, 2x3, 3x2, party 1|2, dim as list / int / omitted, tol default / symbolic in (0,1]; "
                  "ball: n in {2,3,4,6} matrix (Hermitian, real symmetric) and eigenvalue vector; has_symmetric_extension: dims 2x2, 2x3, "
                  "3x2, 3x3, 2x4, level 1|2, ppt flag, dim as list / int / omitted; is_separable: Hermitian rho 2x2, 2x3, 3x2 "
-                 "(agreement), + 3x3, 2x4, 4x2 (NPT => False); product mixtures K<=2 terms real/complex 2x2..3x3, 2x4, 4x2, 4x4 "
-                 "(one symbolic term + fixed 4-term background); concrete family K in {1,2,3,5,n+1}",
-        "thorough": "adds is_ppt 3x3, 2x4; ball n = 8, 9; NPT => False for 4x4, 3x4; mixtures K = 3; concrete family dims 3x4, 2x5, 4x3",
+                 "(agreement), + 3x3, 2x4, 4x2 (NPT => False); product mixtures K<=2 terms (real; complex K=1) 2x2, 2x3, 3x2, 2x4, 4x2, "
+                 "3x3, 4x4 up to line 153, and 4x4 (one symbolic real term + fixed 4-term background) up to the positive maps; "
+                 "concrete family K in {1,2,3,5,n+1}, real and complex, dims 2x2..4x4",
+        "thorough": "adds is_ppt 3x3, 2x4; ball n = 8, 9; NPT => False for 4x4, 3x4; mixtures K = 3 (dims <= 6), complex K = 2 for 2x4/4x2, "
+                    "3x4; concrete family dims 3x4, 4x3, 2x5",
     },
     "trusted_base": ["numpy object-array semantics = numeric semantics", "z3 5.1.0",
                      "kernel contracts used as assumptions: (a) spectral theorem for Q diag(lam) Q^T with the fixed rational orthogonal Q "
@@ -573,8 +575,14 @@ def _orth_cut(*a, **k):
     raise BeyondSymbolicFragment("scipy.linalg.orth: data-dependent shape")
 
 
+def _maps_cut(*a, **k):
+    raise BeyondSymbolicFragment("application of a positive map to the 16x16 symbolic state (too large to continue)")
+
+
 SEP_PATCH = dict(HSE_PATCH)
 SEP_PATCH["toqito.state_props.is_separable"] = {"orth": _orth_cut}
+SEP_PATCH_STOP_AT_MAPS = dict(HSE_PATCH)
+SEP_PATCH_STOP_AT_MAPS["toqito.state_props.is_separable"] = {"orth": _orth_cut, "partial_channel": _maps_cut}
 
 
 def _sep_call(rho, dim, tol=None, mode="cut"):
@@ -719,7 +727,8 @@ def ob_sep_mixture(dA, dB, K, kind, mode, dim_form="list", background=False):
     n = dA * dB
     cfg = {"dims": [dA, dB], "terms": K, "entries": {"r": "real", "c": "complex"}[kind], "dim_arg": dim_form,
            "explored": "all kernel outcomes up to the spectrum sort (line 153)" if mode == "cut" else
-                       "full cascade on the paths where np.linalg.eig returns a real descending spectrum",
+                       "cascade up to the application of the positive maps (lines 292/307) on the paths where np.linalg.eig "
+                       "returns a real descending spectrum",
            "background": "fixed 4-term rational product mixture" if background else None}
     small = n <= 6
     bg = background_state(dA, dB) if background else None
@@ -757,8 +766,8 @@ def ob_sep_mixture(dA, dB, K, kind, mode, dim_form="list", background=False):
     def valid(ni):
         return np.real(np.trace(rho_of(ni))) > 1e-6
     return Obligation("is_separable.product_mixtures_never_raise_and_small_ones_are_separable", cfg, build, call, oracle,
-                      post=post, exc_post=exc_post, assume=assume, valid=valid, tv=False, extra_patch=SEP_PATCH,
-                      neg_control=small, neg=neg, max_paths=600, weight=40 if n >= 16 else (10 if n > 6 else 1),
+                      post=post, exc_post=exc_post, assume=assume, valid=valid, tv=False,
+                      extra_patch=SEP_PATCH if mode == "cut" else SEP_PATCH_STOP_AT_MAPS, neg_control=small, neg=neg, max_paths=600, weight=40 if n >= 16 else (10 if n > 6 else 1),
                       wall_cap_s=900)
 
 
@@ -819,10 +828,10 @@ def concrete_tasks(T):
     dims = [(2, 2), (2, 3), (3, 2), (2, 4), (4, 2), (3, 3), (4, 4)] + ([(3, 4), (4, 3), (2, 5)] if T else [])
     for dA, dB in dims:
         n = dA * dB
-        for K in [1, 2, 3, 5, n + 1]:
-            for cplx in (False, True):
+        for K in ([1, 2, 3, 5, n + 1] if T else [2, n + 1]):
+            for cplx in ((False, True) if (T or n <= 6) else (True,)):
                 for form in (["list", "omitted"] if dA == dB else ["list"]):
-                    if form == "omitted" and not (K == 3 and not cplx):
+                    if form == "omitted" and not (K == (3 if T else 2) and (not cplx or n > 6)):
                         continue
                     cfg = {"dims": [dA, dB], "terms": K, "entries": "complex" if cplx else "real", "dim_arg": form,
                            "family": "sum_k (1/K) P(a_k) (x) P(b_k), a_k, b_k on the moment curve (see family_vector)"}
@@ -830,7 +839,7 @@ def concrete_tasks(T):
                     out.append(ConcreteSeparable("is_separable.concrete_product_mixtures_are_declared_separable", cfg,
                                                  lambda rho, dim=dim: is_separable(rho, dim)))
     for dA, dB in [(2, 2), (2, 3), (3, 3), (2, 4)]:
-        for K in [1, 2, 3, dA * dB + 1]:
+        for K in ([1, 2, 3, dA * dB + 1] if T else ([2, dA * dB + 1] if dA * dB <= 6 else [2])):
             for level, ppt in [(1, True), (2, True), (2, False)]:
                 for cplx in (False, True):
                     if (dA, dB, level, ppt, K) == (2, 2, 2, False, 1):
@@ -869,8 +878,9 @@ def obligations(tier):
         for form in ("hermitian matrix", "real symmetric matrix", "eigenvalue vector"):
             obs.append(ob_ball(n, form))
     obs.append(ob_ball(2, "hermitian matrix", "nra"))
-    obs.append(ob_ball(3, "real symmetric matrix", "nra"))
-    obs.append(ob_ball(4, "eigenvalue vector", "nra"))
+    if T:      # ~45 s each in plain nonlinear arithmetic
+        obs.append(ob_ball(3, "real symmetric matrix", "nra"))
+        obs.append(ob_ball(4, "eigenvalue vector", "nra"))
     # symmetric extension: branch structure
     for dA, dB in [(2, 2), (2, 3), (3, 2)]:
         for level in (1, 2):
@@ -882,8 +892,8 @@ def obligations(tier):
             obs.append(ob_hse_shortcut(dA, dB, 1, ppt, "list"))
     for form in ("list", "int", "omitted"):
         obs.append(ob_hse_two_qubit_closed_form(form))
-    for dA, dB, ppt in [(3, 3, True), (3, 3, False), (2, 4, True), (2, 3, False)]:
-        obs.append(ob_hse_sdp_rule(dA, dB, ppt))
+    # (the "otherwise decided by the hierarchy value" obligations were removed: they mirrored the implementation's rule, which is
+    #  itself the recorded known finding - the SDP branch rejects every state -, and their replays cost ~2 min of real SDP solves)
     # is_separable
     for dA, dB in [(2, 2), (2, 3), (3, 2)]:
         for form in ("list", "int") + (("omitted",) if (dA, dB) != (3, 2) else ()):
@@ -902,6 +912,8 @@ def obligations(tier):
             for kind in ("r", "c"):
                 if kind == "c" and not T and (K == 2 or (dA, dB) == (3, 3)):
                     continue
+                if kind == "c" and K == 2 and dA * dB > 8:
+                    continue   # 9x9 / 12x12 complex two-term mixtures: the products at line 146 take > 30 min symbolically
                 obs.append(ob_sep_mixture(dA, dB, K, kind, "cut"))
     obs.append(ob_sep_mixture(3, 3, 1, "r", "cut", "omitted"))
     obs.append(ob_sep_mixture(4, 4, 1, "r", "sorted", background=True))
